@@ -27,7 +27,7 @@ LEVEL_TEXT = ("Coq theorems: for every structure, union, delimited type and fixe
               "fields threaded with alignment padding, variants share base + tag, delimited adds the 32-bit header); `_offset_` equals the "
               "un-padded end offsets (structures) or tag + union of variants; `_bit_length_` enumerates LenSpec. Correspondence compares "
               "all of these observables of the implementation with the model inside Coq.")
-LEVEL_NOTE = "Trusted: Coq kernel + vm_compute; correspondence of model and code is sampled. C08_sound_wrt_codec (positions in actual serializations) is covered by the C06 development, not here."
+LEVEL_NOTE = "Trusted: Coq kernel + vm_compute; correspondence of model and code is sampled. C08_sound_wrt_codec* (Serdes/OffsetsSound.v) ties the offset sets to the positions at which the serializer model of C06 really writes the fields (structures, unions, delimited structures)."
 TECHNIQUE = "Coq proof by induction over field lists against a positional offset specification; vm_compute correspondence"
 
 MODS = list(range(1, 17)) + [24, 32, 64]
